@@ -9,7 +9,8 @@ CMAKE_MODULE = os.path.join(common.REPO, 'cmake', 'cminx.cmake')
 PY = sys.executable
 EXTRA_GROUPS = [['-p', 'PFX'], ['-p', 'my.pre'], ['-e', 'sub/'], ['-e', '*.txt'], ['-e', 'a.cmake', '-e', 'b.cmake'], ['-s', '{SFILE}'],
                 ['--prefix', 'L'], ['-e', 'deep/'], ['-p', 'my prefix'], ['-e', 'dir with space/'], ['-p', 'quo"te'], ['-p', '$dollar{x}'],
-                ['-e', '#hash'], ['-p', 'back\\slash'], ['-p', 'Docs-NOTFOUND'], ['-e', '*-NOTFOUND'], ['--prefix=X-NOTFOUND'], ['-p', 'OFF'], ['-p', '0']]
+                ['-e', '#hash'], ['-p', 'back\\slash'], ['-p', 'VERBOSE'], ['-e', 'QUIET'], ['-p', 'ARGN', '-e', 'TARGETS'],      # words that are keywords to (other) CMake commands; execute_process's own keywords: known finding K11
+                ['-p', 'Docs-NOTFOUND'], ['-e', '*-NOTFOUND'], ['--prefix=X-NOTFOUND'], ['-p', 'OFF'], ['-p', '0']]
 FALSE_CONSTANT_GROUPS = [['-p', 'Docs-NOTFOUND'], ['-e', '*-NOTFOUND'], ['--prefix=X-NOTFOUND'], ['-p', 'x', '-e', 'pkg-NOTFOUND']]   # ARGN is then false as a CMake condition
 
 
@@ -315,6 +316,18 @@ def k5_witness(drv):
         rc, _ = run_cmake(sb.dir, r_exe, inp, os.path.join(sb.dir, 'o'), ['-e', 'a;b', '-e', ''], raw=True)
         argv = json.load(open(log)) if os.path.exists(log) else None
     return argv is not None and argv[1:-2] != ['-e', 'a;b', '-e', '']
+
+
+def k11_witness(drv):
+    """an extra argument that is one of execute_process()'s own keywords (COMMAND, OUTPUT_VARIABLE, ...) is not forwarded: the list is expanded
+    unquoted inside execute_process(COMMAND ...), which takes the word for its keyword"""
+    with impl.Sandbox() as sb:
+        os.makedirs(os.path.join(sb.dir, 'home', '.config'))
+        r_exe, log = recorder(sb.dir)
+        inp = os.path.join(sb.dir, 'x.cmake'); open(inp, 'w').write('set(a b)\n')
+        rc, _ = run_cmake(sb.dir, r_exe, inp, os.path.join(sb.dir, 'o'), ['-p', 'COMMAND'])
+        argv = json.load(open(log)) if os.path.exists(log) else None
+    return argv is None or argv[1:-2] != ['-p', 'COMMAND']
 
 
 def replay(v, drv):
